@@ -943,3 +943,60 @@ func init() {
 		},
 		Why: "the same optimisation done right: Replace is used only when the previous object is an entry of the index"})
 }
+
+func init() {
+	mutant(&Mutant{Name: "neutral-dispatch-switch-over-local", Props: []string{"C03", "C07", "C15", "C16", "C18"}, File: fServer, Neutral: true,
+		Old: ") {\n\tswitch msg.Command() {\n\tdefault:\n\t\terr = fmt.Errorf(\"unknown command '%s'\", msg.Args[0])",
+		New: ") {\n\tname := msg.Command()\n\tswitch name {\n\tdefault:\n\t\terr = fmt.Errorf(\"unknown command '%s'\", msg.Args[0])",
+		Why: "the dispatch switch keyed on a local that holds msg.Command() (the function never rewrites the message)"})
+	mutant(&Mutant{Name: "neutral-script-class-switch-over-local", Props: []string{"C15", "C18", "C03", "C07"}, File: fScripts, Neutral: true,
+		Old: "func (s *Server) luaTile38AtomicRO(msg *Message) (resp.Value, error) {\n\tswitch msg.Command() {",
+		New: "func (s *Server) luaTile38AtomicRO(msg *Message) (resp.Value, error) {\n\tname := msg.Command()\n\tswitch name {",
+		Why: "a script class switch keyed on a local"})
+}
+
+func init() {
+	mutant(&Mutant{Name: "hook-equals-ignores-deadline", Props: []string{"C14", "C05", "C03"}, File: fHooks,
+		Old:    "\tif !h.expires.Equal(hook.expires) {\n\t\treturn false\n\t}\n",
+		New:    "",
+		Expect: "R5.equals-covers-definition", Key: "Hook.expires", Why: "the seeded change C14c: a re-issued SETHOOK with another EX is taken for a repetition; the old deadline stays and a phantom entry enters the expiry queue"})
+	mutant(&Mutant{Name: "hook-equals-ignores-endpoints", Props: []string{"C05"}, File: fHooks,
+		Old:    "\t\tlen(h.Endpoints) != len(hook.Endpoints) ||\n",
+		New:    "",
+		Edits:  []Edit{{fHooks, "\tfor i, endpoint := range h.Endpoints {\n\t\tif endpoint != hook.Endpoints[i] {\n\t\t\treturn false\n\t\t}\n\t}\n", ""}},
+		Expect: "R5.equals-covers-definition", Key: "Hook.Endpoints", Why: "a SETHOOK that only changes the endpoint list is ignored"})
+	mutant(&Mutant{Name: "shrink-file-not-truncated", Props: []string{"C09"}, File: fShrink,
+		Old:    "\t\tf, err := os.Create(s.opts.AppendFileName + \"-shrink\")",
+		New:    "\t\tf, err := os.OpenFile(s.opts.AppendFileName+\"-shrink\", os.O_CREATE|os.O_RDWR, 0600)",
+		Expect: "R9.swap-order", Key: "new-file-starts-empty", Why: "the seeded change C09c: the tail of a longer leftover from an interrupted shrink becomes part of the live log"})
+	mutant(&Mutant{Name: "neutral-shrink-file-openfile-trunc", Props: []string{"C09", "C06"}, File: fShrink, Neutral: true,
+		Old: "\t\tf, err := os.Create(s.opts.AppendFileName + \"-shrink\")",
+		New: "\t\tf, err := os.OpenFile(s.opts.AppendFileName+\"-shrink\", os.O_CREATE|os.O_RDWR|os.O_TRUNC, 0600)",
+		Why: "the same open written out with its flags"})
+	mutant(&Mutant{Name: "setfill-counts-only-new-ids", Props: []string{"C12", "C19"}, File: fColl,
+		Old:    "\t\tif prev.IsSpatial() {\n\t\t\tc.indexDelete(prev)\n\t\t\tc.objects--\n\t\t} else {\n\t\t\tc.values.Delete(prev)\n\t\t\tc.nobjects--\n\t\t}",
+		New:    "\t\tif prev.IsSpatial() {\n\t\t\tc.indexDelete(prev)\n\t\t} else {\n\t\t\tc.values.Delete(prev)\n\t\t}",
+		Edits:  []Edit{{fColl, "\tif obj.IsSpatial() {\n\t\tc.indexInsert(obj)\n\t\tc.objects++\n\t} else {\n\t\tc.values.Set(obj)\n\t\tc.nobjects++\n\t}", "\tif obj.IsSpatial() {\n\t\tc.indexInsert(obj)\n\t\tif prev == nil {\n\t\t\tc.objects++\n\t\t}\n\t} else {\n\t\tc.values.Set(obj)\n\t\tif prev == nil {\n\t\t\tc.nobjects++\n\t\t}\n\t}"}},
+		Expect: "R19.delta", Key: "objects", Why: "the seeded change C12c: the per-kind counters are only bumped for new ids, so an id overwritten with the other kind stays counted under its old kind and SEARCH COUNT disagrees with SEARCH IDS"})
+}
+
+func init() {
+	mutant(&Mutant{Name: "queuehooks-persists-stale-index", Props: []string{"C10"}, File: fAOF,
+		Old: "\t\t\ts.qidx++ // increment the log id\n\t\t\tkey := hookLogPrefix + uint64ToString(s.qidx)",
+		New: "\t\t\tqidx++ // increment the log id\n\t\t\tkey := hookLogPrefix + uint64ToString(qidx)",
+		Edits: []Edit{
+			{fAOF, "\terr := s.qdb.Update(func(tx *buntdb.Tx) error {\n\t\tfor _, msg := range wmsgs {", "\tqidx := s.qidx\n\terr := s.qdb.Update(func(tx *buntdb.Tx) error {\n\t\tfor _, msg := range wmsgs {"},
+			{fAOF, "\t\t\tlog.Debugf(\"queued hook: %d\", s.qidx)", "\t\t\tlog.Debugf(\"queued hook: %d\", qidx)"},
+			{fAOF, "\t\t_, _, err := tx.Set(\"hook:idx\", uint64ToString(s.qidx), nil)\n\t\tif err != nil {\n\t\t\treturn err\n\t\t}\n\t\treturn nil\n\t})", "\t\t_, _, err := tx.Set(\"hook:idx\", uint64ToString(s.qidx), nil)\n\t\tif err != nil {\n\t\t\treturn err\n\t\t}\n\t\treturn nil\n\t})\n\ts.qidx = qidx"},
+		},
+		Expect: "R10.persisted-index-covers-keys", Key: "queueHooks/persisted-index", Why: "the seeded change C10c: the keys are taken from a local counter, the persisted index from the field that is only updated after the commit"})
+	mutant(&Mutant{Name: "neutral-queuehooks-local-counter", Props: []string{"C10"}, File: fAOF, Neutral: true,
+		Old: "\t\t\ts.qidx++ // increment the log id\n\t\t\tkey := hookLogPrefix + uint64ToString(s.qidx)",
+		New: "\t\t\tqidx++ // increment the log id\n\t\t\tkey := hookLogPrefix + uint64ToString(qidx)",
+		Edits: []Edit{
+			{fAOF, "\terr := s.qdb.Update(func(tx *buntdb.Tx) error {\n\t\tfor _, msg := range wmsgs {", "\tqidx := s.qidx\n\terr := s.qdb.Update(func(tx *buntdb.Tx) error {\n\t\tfor _, msg := range wmsgs {"},
+			{fAOF, "\t\t\tlog.Debugf(\"queued hook: %d\", s.qidx)", "\t\t\tlog.Debugf(\"queued hook: %d\", qidx)"},
+			{fAOF, "\t\t_, _, err := tx.Set(\"hook:idx\", uint64ToString(s.qidx), nil)\n\t\tif err != nil {\n\t\t\treturn err\n\t\t}\n\t\treturn nil\n\t})", "\t\t_, _, err := tx.Set(\"hook:idx\", uint64ToString(qidx), nil)\n\t\tif err != nil {\n\t\t\treturn err\n\t\t}\n\t\treturn nil\n\t})\n\ts.qidx = qidx"},
+		},
+		Why: "the same refactoring done right: the local counter is the one that is persisted"})
+}
